@@ -4,13 +4,15 @@ PROPS = {}
 PROPS["C17"] = dict(
     driver="oracle",
     props_file="Props/C17.v",
-    coq_targets=["Oracle/Check.vo", "Oracle/Proofs.vo", "Oracle/Sound.vo"],
+    coq_targets=["Oracle/Check.vo", "Oracle/Proofs.vo", "Oracle/Sound.vo", "Oracle/LinkServiceOracle.vo"],
     check_module="Oracle.Check",
     check_fn="check_case_c",
     case_type="ccase",
     coq_shard=40,
+    shrink_budget=160,
     streams=[dict(name="main", quick=320, thorough=8000),
-             dict(name="extreme", quick=80, thorough=2000)],
+             dict(name="extreme", quick=80, thorough=2000),
+             dict(name="price", quick=40, thorough=1000)],
     rule="histories of 40-100 (thorough: up to 160) steps against the REAL service + oracle modules: 1-3 bound providers, "
          "1-2 feeds (max/min/avg, 4 json paths, latest-history 1-4 or up to 100, thresholds 1..N, timeout 1-3, frequency "
          "timeout..timeout+2, fee caps that exclude some providers), start/pause/edit by creator and strangers, direct "
@@ -18,16 +20,22 @@ PROPS["C17"] = dict(
          "none of the providers (numbers as literals, numeric strings, exponent form, true; missing/null/text fields; "
          "result code 500; late and foreign answers), creators funded generously or with 0-400 stake (auto-pause) and "
          "topped up; stream main: values m*10^e, |m| < 10^9, e in -11..6; stream extreme: exactly representable "
-         "+-m*2^k (k in -40..900) and tiny literals, max/min only; non-trivial = on some feed >= 2 batches stored a value "
-         "and its latest-history is smaller than the number of values produced; distinct = by hash of the history",
+         "+-m*2^k (k in -40..900) and tiny literals, max/min and (since round 3) avg with the exact-rational model inside the guard band; non-trivial = on some feed >= 2 batches stored a value "
+         "and its latest-history is smaller than the number of values produced; distinct = by hash of the history; "
+         "all streams: the price service is asked about a feed (or an unknown one) at random points; stream price: as main, plus blocks "
+         "200-320 s apart (half of them 280-305 s) each followed by a price request, so that the newest value ages to just below / exactly / "
+         "beyond 5 minutes of block time",
     codes={1: "oracle-aggregate-mismatch", 2: "oracle-value-timestamp", 3: "oracle-history-trim",
-           4: "oracle-state-mirror", 5: "oracle-non-creator-control", 6: "oracle-value-count"},
+           4: "oracle-state-mirror", 5: "oracle-non-creator-control", 6: "oracle-value-count",
+           7: "oracle-price-service"},
     explain={1: "a stored feed value is not the configured aggregate (max/min/avg, 8 decimals) of the values the harness' providers sent in that batch",
              2: "a stored feed value is not stamped with the time of the block in which its batch completed",
              3: "the feed's value list is not [new value; newest latest-history-1 old values] after a batch, or not the newest latest-history values after an edit, or longer than latest-history",
              4: "the feed's running/paused index disagrees with the state of its service request context",
              5: "an account other than the feed's creator started, paused or edited the feed (or its attempt changed something)",
-             6: "the number of stored values changed without a completed batch that met its threshold, or did not change with one"},
+             6: "the number of stored values changed without a completed batch that met its threshold, or did not change with one",
+             7: "the oracle price service (ModuleServiceRequest) did not answer with the feed's newest stored value: 400 unknown feed, 401 no value, "
+                "402 newest value older than 5 minutes of block time, else 200 and that value"},
     trusted_base=["float64 aggregation (gjson ParseFloat, +, /, FormatFloat 'f' 8) is modelled on exact decimal rationals with "
                   "round-half-even at the 8th decimal; cases whose exact result lies within the float error band of a rounding "
                   "boundary are compared with tolerance 1e-8 (or skipped when the band exceeds 0.25e-8) and counted in the histograms",
@@ -39,5 +47,6 @@ PROPS["C17"] = dict(
                  "run_wfb (hypothesis of one_value_per_successful_batch, stamped_with_block_time, keeps_newest_latest_history, "
                  "newest_min_latest_history_produced): the service module completes a batch only while it is running; validated on "
                  "every generated history by sevs_consistent (real BatchState, batch counter and threshold snapshot before every "
-                 "completed batch) - a violation is reported as a divergence"],
+                 "completed batch) - a violation is reported as a divergence; since round 3 it is also DERIVED from the service group's model "
+                 "(theorems service_callbacks_find_batch_running, run_wfb_from_service_model)"],
 )
